@@ -237,4 +237,45 @@ theorem irrelevant (P : Prog) {roots1 roots2 : List Nat} (hsub : ∀ a ∈ roots
         cases undefIn P roots1 w.chosen <;> cases evHolds P roots1 evidence w.chosen <;>
           cases getB (model P roots1 w.chosen).1 q <;> simp
 
+theorem nat_sum_zero' {α : Type} (f : α → Nat) (xs : List α) (h : ∀ x ∈ xs, f x = 0) : (xs.map f).sum = 0 := by
+  induction xs with
+  | nil => rfl
+  | cons y ys ih =>
+    simp only [List.map_cons, List.sum_cons, h y List.mem_cons_self,
+      ih (fun x hx => h x (List.mem_cons_of_mem _ hx))]
+
+/-- if the larger problem has no undefined world, neither has the smaller one -/
+theorem undefOf_small (P : Prog) {roots1 roots2 : List Nat} (hsub : ∀ a ∈ roots1, a ∈ roots2)
+    (H : undefOf P roots2 = 0) : undefOf P roots1 = 0 := by
+  unfold undefOf
+  apply nat_sum_zero'
+  intro w1 hw1
+  unfold undefTerm
+  by_cases hx : w1.weight = 0
+  · simp [hx]
+  · cases hu : undefIn P roots1 w1.chosen
+    · simp
+    · exfalso
+      rw [restrict_groups_eq] at hw1
+      obtain ⟨w2, hw2, hx2, hag⟩ := extend_world (usedBy P roots1) (pGroup P roots1) (pGroup P roots2)
+        (by
+          intro g hg
+          unfold pGroup at *
+          rw [List.any_eq_true] at *
+          obtain ⟨pc, hpc, hu⟩ := hg
+          exact ⟨pc, hpc, usedBy_mono P hsub _ hu⟩)
+        P.groups
+        (by
+          intro g _ hp pc hpc
+          unfold pGroup at hp
+          cases hu : usedBy P roots1 pc.2
+          · rfl
+          · have : g.alts.any (fun pc => usedBy P roots1 pc.2) = true := List.any_eq_true.2 ⟨pc, hpc, hu⟩
+            rw [this] at hp; cases hp)
+        w1 hw1 hx
+      have h2 := undefIn_imp P hsub hag hu
+      have := nat_sum_zero _ _ H w2 (by rw [restrict_groups_eq]; exact hw2)
+      unfold undefTerm at this
+      simp [h2, beq_zero_false hx2] at this
+
 end ProbLogProofs.SemIrrelevant
